@@ -738,15 +738,100 @@ def work(job):
 
 
 # ---------------------------------------------------------------------------
+# E1b: explicit reference beats queried while the clock is somewhere else
+
+ROUTES = [[['yield', 1.25]], [['yield', 5.5]],
+          [['yield', 0.5], ['beats', -0.75]],
+          [['yield', 0.5], ['beats', 7.75]]]
+
+
+def ref_forms(refs):
+    """Every reference beat as a float and, where integral, as an int too
+    (0 and 0.0 are both in the set)."""
+    out = []
+    for r in refs:
+        out.append(r)
+        if r == int(r):
+            out.append(int(r))
+    return out
+
+
+def offref_cases(g):
+    for tempo in g['tempos']:
+        for b0, bpb in g['meters']:
+            for route in range(len(ROUTES)):
+                for q in g['quants']:
+                    phases = [0.0] if q == 0 else \
+                        [p for p in g['phases'] if -q < p < q]
+                    for ph in phases:
+                        for ints in (False, True):
+                            if ints and not any(
+                                    isinstance(v, float) and v == int(v)
+                                    for v in (tempo, q, ph, bpb)):
+                                continue
+                            yield {'tempo': tempo, 'b0': b0, 'bpb': bpb,
+                                   'route': route, 'q': q, 'ph': ph,
+                                   'ints': ints, 'refs': 'all'}
+
+
+def offref_prog(case, g_refs):
+    i = case['ints']
+    ops = []
+    if case['b0'] > 0:
+        ops.append(['yield', _ints(case['b0'], i)])
+    if case['bpb'] is not None:
+        ops.append(['bpb', _ints(case['bpb'], i)])
+    ops += ROUTES[case['route']]
+    refs = ref_forms(g_refs) if case['refs'] == 'all' else case['refs']
+    q, ph = _ints(case['q'], i), _ints(case['ph'], i)
+    return {'tempo': _ints(case['tempo'], i), 'ops': ops, 'final': {
+        'conv_beats': [], 'conv_secs': [], 'bars': [],
+        'bar_beats': refs, 'ntog': [[q, ph, r] for r in refs], 'play': []}}
+
+
+def work_offref(job):
+    acc = progenum.Acc()
+    g = job['grid']
+    narrowed = {}
+    for idx, case in enumerate(offref_cases(g)):
+        if idx % job['of'] != job['shard']:
+            continue
+        prog = offref_prog(case, g['refs'])
+        dis, log = check_prog(prog)
+        full = dict(case, refs=ref_forms(g['refs']))
+        for kind, exp, obs, detail in dis:
+            acc.violation(kind, {'offref': full}, exp, obs, detail)
+            # report the single failing reference beat (queries are
+            # read-only and independent); bounded work per shard
+            if narrowed.get(kind, 0) < 2:
+                narrowed[kind] = narrowed.get(kind, 0) + 1
+                for r in full['refs']:
+                    one = dict(case, refs=[r])
+                    for k2, e2, o2, d2 in check_prog(
+                            offref_prog(one, g['refs']))[0]:
+                        if k2 == kind:
+                            acc.violation(k2, {'offref': one}, e2, o2, d2)
+        f = log.get('final') or {}
+        # non-trivial: every case asks for references that differ from the
+        # current beat and include grid points, bar lines, beats before the
+        # meter change and both an int and a float zero
+        acc.case({'offref': case}, nontrivial=True,
+                 outcome=[f.get('ntog'), f.get('bar_beats'), f.get('pair')],
+                 steps=len(prog['ops']) + 1)
+    return acc.result()
+
+
+# ---------------------------------------------------------------------------
 # E2: histories
 
 FINAL_E2 = {
     'conv_beats': [-1.25, 0, 7.5],
     'conv_secs': [0, 0.75],
-    'bar_beats': [-0.5, 2.0, 6.25],
+    'bar_beats': [-0.5, 0, 0.0, 2.0, 6.25],
     'bars': [0, 1, 2.5],
     'ntog': [[1, 0, None], [4, 0, None], [1.5, 0.5, None], [2, -0.5, None],
-             [0, 0, None], [1, 0.25, 3], [4.0, -1.0, -2.5], [0.5, 0, 6.25]],
+             [0, 0, None], [1, 0.25, 3], [4.0, -1.0, -2.5], [0.5, 0, 6.25],
+             [4, 0, 0], [1.5, 0.5, 0.0], [0, 0, 0]],
     'play': [[1, 0], [4, -1], [1.5, 0.5]]}
 
 
@@ -877,6 +962,12 @@ def replay(job):
         return {'violates': any(d[0] == job['kind'] for d in dis),
                 'disagreements': [[d[0], repr(d[1]), repr(d[2])]
                                   for d in dis]}
+    if 'offref' in case:
+        c = case['offref']
+        dis, log = check_prog(offref_prog(c, c['refs']))
+        return {'violates': any(d[0] == job['kind'] for d in dis),
+                'disagreements': [[d[0], repr(d[1]), repr(d[2])]
+                                  for d in dis][:40]}
     return histbfs.replay(job)
 
 
@@ -935,7 +1026,12 @@ def main(ctx):
         'time_to_next_beat, play(quant) of a probe, both conversions and '
         'next_bar.  Non-trivial = reference beat is itself a grid point or '
         'bar line, lies before the meter change, phase negative, quant 0, '
-        'or ints and floats mixed.  E2: BFS over all histories of '
+        'or ints and floats mixed.  E1b (offref): for every (tempo, meter, '
+        'route to a current beat b0+1.25 / b0+5.5 / beats=-0.75 / '
+        'beats=7.75, quant, phase, number type) next_time_on_grid(q, ph, x) '
+        'and next_bar(x) are queried for the whole reference-beat set '
+        '(float and int forms, 0 and 0.0) while the clock is at another '
+        'beat; all of these cases are non-trivial.  E2: BFS over all histories of '
         '{yield d, tempo=, etempo(), beats=, beats_per_bar=[, play(probe, '
         'quant)]} executed by one routine on the clock, states merged on '
         'the eight map/meter fields of the clock plus the current '
@@ -975,6 +1071,10 @@ def main(ctx):
                           for k, v in grid.items()}
     jobs = [{'grid': grid, 'shard': i, 'of': nsh} for i in range(nsh)]
     progenum.run(ctx, MODNAME, 'work', jobs, mode='nrt', bound='grid')
+    ctx.bounds['offref_routes'] = ROUTES
+    jobs = [{'grid': grid, 'shard': i, 'of': nsh} for i in range(nsh)]
+    progenum.run(ctx, MODNAME, 'work_offref', jobs, mode='nrt',
+                 bound='offref')
     for name, params, depth in e2:
         histbfs.run(ctx, MODNAME, name, params, depth, mode='nrt', batch=32)
 
